@@ -32,7 +32,7 @@ RULE = ("pairs of sketches (sizes 0..200 mostly, up to 3000) in every size relat
         "and Fractions from the hashes the implementation reports; non-trivial = a non-empty sketch and >= 3 numeric answers; "
         "distinct = distinct op lists")
 
-FLAV = (["small", "mid", "incompat", "small", "downsample", "num", "self", "mid", "small", "downsample"] * 4)
+FLAV = (["small", "mid", "incompat", "skew", "downsample", "num", "self", "mid", "skew", "downsample", "small"] * 4)
 FLAV[17] = "big"
 
 if __name__ == "__main__":
